@@ -122,6 +122,27 @@ Theorem C13_unknown_remove_refused :
 Proof. exact unknown_remove_refused. Qed.
 Print Assumptions C13_unknown_remove_refused.
 
+(** a refused call changes nothing: an Add with invalid arguments (nil request,
+    nil target, no addresses, empty name) is never accepted, in any state of the
+    name, and leaves the state as it is; so do a Remove / Reconnect of an
+    unmanaged name; a duplicate Add (call, then refusal) brings the state back *)
+Theorem C13_invalid_add_never_accepted : forall c s, vis c s (EAddInvalid true) = [].
+Proof. exact invalid_add_never_accepted. Qed.
+Print Assumptions C13_invalid_add_never_accepted.
+
+Theorem C13_refused_call_changes_nothing :
+  forall c s e s', In s' (vis c s e) ->
+  e = EAddInvalid false \/ e = ERemoveReturned false \/ e = EReconnectReturned false ->
+  s' = s.
+Proof. exact refused_call_changes_nothing. Qed.
+Print Assumptions C13_refused_call_changes_nothing.
+
+Theorem C13_refused_duplicate_add_changes_nothing :
+  forall c s s1 s2, managed s = true ->
+  In s1 (vis c s EAddCalled) -> In s2 (vis c s1 (EAdd false)) -> s2 = s.
+Proof. exact refused_duplicate_add_changes_nothing. Qed.
+Print Assumptions C13_refused_duplicate_add_changes_nothing.
+
 (** calls for the same name made by a SECOND client goroutine while a Remove is
     in progress: such a call gets through only once that Remove has completed
     and the name is unmanaged -- an Add is never accepted while the old target
